@@ -56,7 +56,9 @@ def task_table(dummy):
     return chk.to_dict()
 
 
-def task_fork(digits, step_list):
+def task_fork(digits, step_list, d4s=None):
+    """d4s: for large macrovectors, candidate values of the EQ4 severity distance of the less
+    severe side; the first feasible one further restricts the run (it is a sample anyway)"""
     from . import score4
     from .mono import num
 
@@ -74,6 +76,14 @@ def task_fork(digits, step_list):
         g = score4.mv_guard(sess, items, digits)
         if m.is_sat(g, "vacuity") is not True:
             continue  # this step cannot start in this macrovector
+        if d4s:
+            du, raised = sess.call(smod.globals["distance"], [e, smod.globals["EQ4_MAX"][digits[3]], ["SC", "SI", "SA"]])
+            for k in d4s:
+                g2 = m.AND(g, vc.guard_eq(du, k))
+                if m.is_sat(g2, "vacuity") is True:
+                    g = g2
+                    label += " [d4=%s]" % k
+                    break
         m.restrict(g, nsamples=128)
         del vars_[met]
         from .mono import pair_vector
@@ -125,107 +135,25 @@ def tasks():
     out = [("task_table", (0,))]
     forks = fork_list()
     steps = all_steps()
+    from spec import cvss4_spec as S4
+
     rng = random.Random(C.seed())
-    if C.tier() == "quick":
-        for f in rng.sample(forks, 14):
-            out.append(("task_fork", (f, [rng.choice(steps)])))
-    else:
-        for f in rng.sample(forks, 56):
-            out.append(("task_fork", (f, [rng.choice(steps)])))
+    n = 14 if C.tier() == "quick" else 84
+    for f in rng.sample(forks, n):
+        d4s = None
+        if S4.EQ4_DEPTH[f[3]] * S4.EQ36_DEPTH[(f[2], f[5])] >= 35:
+            d4s = list(range(0, S4.EQ4_DEPTH[f[3]] + 3))
+            rng.shuffle(d4s)
+        out.append(("task_fork", (f, [rng.choice(steps)], d4s)))
     return out
 
 
 def bounds():
     if C.tier() == "quick":
-        return ["v4: the table lemma on all 270 lookup entries (complete); product execution only for a seeded sample of 14 (macrovector fork, metric step) cases of the 270 x 31 - one such run costs minutes in this engine, so complete v4 coverage by product execution is NOT claimed"]
-    return ["v4: the table lemma on all 270 lookup entries (complete); product execution for a seeded sample of 56 (macrovector fork, metric step) cases of the 270 x 31: complete v4 coverage by product execution is NOT claimed"]
+        return ["v4: the table lemma on all 270 lookup entries (complete); product execution only for a seeded sample of 14 (macrovector fork, metric step) cases of the 270 x 31 (large macrovectors further restricted to one value of the EQ4 severity distance) - one such run costs minutes in this engine, so complete v4 coverage by product execution is NOT claimed"]
+    return ["v4: the table lemma on all 270 lookup entries (complete); product execution for a seeded sample of 84 (macrovector fork, metric step) cases of the 270 x 31 (large macrovectors further restricted to one value of the EQ4 severity distance): complete v4 coverage by product execution is NOT claimed"]
 
 
 def outside():
     return ["v4 (fork, step) cases outside the seeded sample; v4 Modified-metric spellings other than MSI/MSA (by C06 the score depends on effective values only)"]
 
-
-def task_fork_all_steps(digits):
-    """one macrovector fork, ALL metric steps at once: object A from the variables (its
-    macrovector fixed by the fork), object B from the vector in which the metric selected by a
-    fresh variable `which` is raised by one severity step (where it is not already at its most
-    severe value).  Both real constructors run in one session; every pair of reachable scores
-    (A = s, B = t) with t < s must have an unsatisfiable joint guard."""
-    from . import relational as R
-    from . import score4
-    from .mono import num
-
-    chk = Check("C14")
-    sess = Session(npat=512)
-    m, vc = sess.m, sess.vc
-    label = "v4 mv=" + "".join(str(d) for d in digits) + " all steps"
-    vars_ = sess.assign_vars(4, only=[x for x in EFFECTIVE_VARS])
-    smod, d, e, items = score4.spec_macrovector(sess, vars_)
-    g = score4.mv_guard(sess, items, digits)
-    if m.is_sat(g, "vacuity") is not True:
-        chk.absorb(sess)
-        return chk.to_dict()
-    m.restrict(g, nsamples=192)
-    which = m.new_var("which", list(EFFECTIVE_VARS))
-    g_ = G.GRAMMARS[4]
-    written = {}
-    for met, _ in g_["metrics"]:
-        if met not in vars_:
-            written[met] = R.Written(m.FALSE, met + ":X")
-            continue
-        var = vars_[met]
-        w = m.atom(which, met)
-        order = STEP_ORDER[met]
-        pairs = []
-        for lab in var.domain:
-            if lab is ABSENT:
-                continue
-            if lab in order and order.index(lab) + 1 < len(order):
-                nxt = order[order.index(lab) + 1]
-                pairs.append((m.AND(m.atom(var, lab), w), met + ":" + nxt))
-                pairs.append((m.AND(m.atom(var, lab), m.NOT(w)), met + ":" + lab))
-            else:
-                pairs.append((m.atom(var, lab), met + ":" + lab))
-        pres = m.NOT(m.atom(var, ABSENT)) if ABSENT in var.index else m.TRUE
-        rest = m.NOT(m.or_all([x for x, _ in pairs]))
-        pairs.append((rest, met + ":X"))
-        written[met] = R.Written(pres, vc.mk_union(pairs, sweep=False))
-    veca = sess.vector_from_vars(4, vars_)
-    vecb = R.vector_from_written(sess, 4, vars_, written)
-    mod = sess.load("cvss")
-    C.set_epoch(1)
-    cls = mod.globals["CVSS4"]
-
-    def mk_replay(model, what):
-        parts = ["CVSS:4.0"]
-        for met, _ in g_["metrics"]:
-            w = written[met]
-            if m.eval_nodes([w.pres], model)[0]:
-                parts.append(sess.concretize(w.val, model))
-        return {"kind": "c14", "version": 4, "a": sess.vector_string(4, model), "b": "/".join(parts), "what": what}
-
-    t0 = time.time()
-    a, raised = sess.call(cls, [veca])
-    for cond, exc in raised:
-        O.must_not(sess, chk, vc.c_any(cond), "%s: constructor raises on the less severe vector" % label, mk_replay)
-    ta = time.time() - t0
-    t0 = time.time()
-    b, raised = sess.call(cls, [vecb])
-    for cond, exc in raised:
-        O.must_not(sess, chk, vc.c_any(cond), "%s: constructor raises on the more severe vector" % label, mk_replay)
-    tb = time.time() - t0
-    sa, sb = a.attrs.get("base_score"), b.attrs.get("base_score")
-    npairs = 0
-    t0 = time.time()
-    for gi, si in vc.alts(sa):
-        for hj, tj in vc.alts(sb):
-            if si is C.UNBOUND or tj is C.UNBOUND or si is None or tj is None:
-                continue
-            if num(tj) < num(si):
-                npairs += 1
-                O.must_not(sess, chk, m.AND(gi, hj), "%s: score %r on the less severe vector, %r after raising one metric" % (label, si, tj), mk_replay)
-    chk.extra["order_violating_pairs_refuted"] = npairs
-    chk.extra["forks_all_steps"] = 1
-    chk.extra["timing"] = [{"fork": label, "a_s": round(ta, 1), "b_s": round(tb, 1), "compare_s": round(time.time() - t0, 1), "nodes": len(m.nodes)}]
-    chk.absorb(sess)
-    return chk.to_dict()
